@@ -5,7 +5,8 @@
   The model is Kskm/Config.lean (pydantic modelled, not verified: tied to the code by
   harness/corr_C16.py).  The schema facts used below come from `KskmGen.configSchema`, regenerated
   from `model_json_schema()` / `model_fields` on every run: a changed default, bound, pattern,
-  `extra=` setting, field validator or flag reader changes the table and breaks a `decide` here.
+  `extra=` setting, field validator (before / after) or flag reader changes the table and breaks a
+  `decide` here.
 -/
 import Kskm.Config
 import Kskm.Chain
@@ -539,10 +540,151 @@ theorem omitted_ksk_ttl_default (fe : String → Bool) :
     breaks this `decide` and the correspondence run exhibits `delete:ksk_policy.ttl` -/
 theorem omitted_ksk_ttl_default_now : KskmGen.dnsTtlFallback = some 172800 := by decide
 
-/-- the field validators the model has built in are the ones declared in the code now -/
+/-- the `mode="before"` field validators the model has built in are the ones declared in the code now -/
 theorem before_validators_pinned :
     KskmGen.configBeforeValidators =
       [("KSKKey", "algorithm_by_name", ["algorithm"]), ("SchemaAction", "turn_into_list", ["*"])] := by decide
+
+/-- …and so are the `mode="after"` ones: the table generator admits `validity_without_timezone_is_utc`
+    only after PROBING the function by execution (naive ↦ same wall-clock time, offset 0; aware and
+    `None` unchanged; independent of the process time zone), and flags exactly the two validity options
+    of a key definition — no other option of any model -/
+theorem after_validators_pinned :
+    KskmGen.configAfterValidators =
+      [("KSKKey", "validity_without_timezone_is_utc", ["valid_from", "valid_until"])] ∧
+    schemaFieldValidators KskmGen.configSchema "KSKKey" "valid_from" = some (false, true) ∧
+    schemaFieldValidators KskmGen.configSchema "KSKKey" "valid_until" = some (false, true) ∧
+    (KskmGen.configSchema.all fun s => s.fields.all fun f =>
+      f.naiveIsUtc == (s.name == "KSKKey" && (f.name == "valid_from" || f.name == "valid_until"))) = true := by
+  decide
+
+/-! ## 3b. A KSK validity is an instant: a timestamp without time zone is UTC
+
+`valid_from` / `valid_until` are documented as ISO 8601 timestamps.  One written without a zone
+designator (`2010-07-15T00:00:00`, or a bare date) used to stay a naive `datetime`: the trust-anchor
+export then depended on the time zone of the process and the signer ended in `TypeError` (finding
+F22, repaired in /repo aa1bc36 by the after-validator `validity_without_timezone_is_utc`).  The
+documented reading — as for KSR / SKR timestamps — is UTC. -/
+
+/-- the documented reading `LoadedAs` (KskmProofs/Lemmas/C16Table.lean), spelled out: a timestamp with
+    a zone designator is loaded unchanged; one without is the same wall-clock time in UTC (`us` is the
+    instant a naive value denotes when read as UTC, so it is kept and the offset becomes 0); a bare
+    date is midnight UTC of that day; an empty `valid_until` stays empty -/
+theorem validity_reading :
+    (∀ us off v, LoadedAs (.ts us (some off)) v ↔ v = .ts us (some off)) ∧
+    (∀ us v, LoadedAs (.ts us none) v ↔ v = .ts us (some 0)) ∧
+    (∀ d v, LoadedAs (.date d) v ↔ v = .ts (d * (86400 * 1000000)) (some 0)) ∧
+    (∀ v, LoadedAs .null v ↔ v = .null) :=
+  ⟨fun _ _ _ => Iff.rfl, fun _ _ => Iff.rfl, fun _ _ => Iff.rfl, fun _ => Iff.rfl⟩
+
+/-- **validity_loaded_aware.**  For EVERY configuration that loads and every key definition of it:
+    * the loaded `valid_from` is an AWARE instant, and the loaded `valid_until` is empty or an aware
+      instant — a loaded validity is never a `datetime` without time zone, whatever was configured
+      (timestamp, bare date, text, Unix time …);
+    * the loaded key definition comes from the configured key definition of the same name
+      (`keys.<name>` of the file, `ksk_keys` after `_transform_config`), and each loaded validity is
+      the documented reading `LoadedAs` of the configured one: an aware configured value is loaded
+      unchanged (same instant, same offset), a naive one as the same wall-clock time in UTC, a bare
+      date as midnight UTC; an omitted `valid_until` is loaded empty. -/
+theorem validity_loaded_aware (fe : String → Bool) (c loaded ks kname key : CVal) (keys : List (CVal × CVal))
+    (h : fromDict (realEnv fe) c = .ok loaded)
+    (hg : loaded.get? "ksk_keys" = some ks) (hks : ks = .map keys) (hk : (kname, key) ∈ keys) :
+    (∀ v, key.get? "valid_from" = some v → ∃ us off, v = .ts us (some off)) ∧
+    (∀ v, key.get? "valid_until" = some v → v = .null ∨ ∃ us off, v = .ts us (some off)) ∧
+    ∃ kvs ksIn keyIn, transformConfig (realEnv fe).kskTtlFallback c = .ok kvs ∧
+      CVal.lookupStr kvs "ksk_keys" = some (.map ksIn) ∧ (kname, .map keyIn) ∈ ksIn ∧
+      (∀ v, key.get? "valid_from" = some v →
+        ∃ x, CVal.lookupStr keyIn "valid_from" = some x ∧ LoadedAs x v) ∧
+      (∀ v, key.get? "valid_until" = some v →
+        (CVal.lookupStr keyIn "valid_until" = none ∧ v = .null) ∨
+        ∃ x, CVal.lookupStr keyIn "valid_until" = some x ∧ LoadedAs x v) := by
+  obtain ⟨kvs, ksIn, keyIn, ht, hl, hmem, htr⟩ := key_option_traced fe c loaded ks kname key keys h hg hks hk
+  have tyFrom : schemaFieldTy KskmGen.configSchema "KSKKey" "valid_from" = some (.scalar [.datetime]) := by decide
+  have tyUntil : schemaFieldTy KskmGen.configSchema "KSKKey" "valid_until" = some (.scalar [.datetime, .null]) := by decide
+  have dFrom : (schemaDefault KskmGen.configSchema "KSKKey" "valid_from").isNone = true := by decide
+  have dUntil : (schemaDefault KskmGen.configSchema "KSKKey" "valid_until").map CVal.isNull = some true := by decide
+  -- the two options, each traced to what was configured
+  have from_ : ∀ v, key.get? "valid_from" = some v →
+      (∃ us off, v = .ts us (some off)) ∧ ∃ x, CVal.lookupStr keyIn "valid_from" = some x ∧ LoadedAs x v := by
+    intro v hgv
+    obtain ⟨s, f, hs, hf, hor⟩ := htr "valid_from" v hgv
+    rcases hor with ⟨_, hd⟩ | ⟨x, y, hlx, hy, hv⟩
+    · rw [(fieldTy_of _ _ _ _ _ hs hf).2, hd] at dFrom
+      cases dFrom
+    · obtain ⟨h1, h2⟩ := validity_option fe s f "valid_from" [] x y v hs hf tyFrom (Or.inl rfl)
+        after_validators_pinned.2.1 hy hv
+      refine ⟨?_, x, hlx, h2⟩
+      rcases h1 with rfl | h1
+      · -- `valid_from` is never empty: `null` is not of its type
+        exfalso
+        obtain ⟨e1, _⟩ := fieldTy_of _ _ _ _ _ hs hf
+        have hfty : f.ty = .scalar [.datetime] := by
+          have : some f.ty = some (STy.scalar [.datetime]) := by rw [← tyFrom]; exact e1.symm
+          injection this
+        have hc := validate_sound _ _ _ _ _ _ hy
+        rw [hfty] at hc
+        obtain ⟨a, ha, hok⟩ := conforms_scalar _ 4 _ y hc
+        simp only [List.mem_cons, List.not_mem_nil, or_false] at ha
+        subst ha
+        obtain ⟨u, o, rfl⟩ := hok
+        unfold applyNaiveIsUtc at hv
+        split at hv
+        · cases o <;> simp at hv
+        · cases hv
+      · exact h1
+  have until_ : ∀ v, key.get? "valid_until" = some v →
+      (v = .null ∨ ∃ us off, v = .ts us (some off)) ∧
+      ((CVal.lookupStr keyIn "valid_until" = none ∧ v = .null) ∨
+        ∃ x, CVal.lookupStr keyIn "valid_until" = some x ∧ LoadedAs x v) := by
+    intro v hgv
+    obtain ⟨s, f, hs, hf, hor⟩ := htr "valid_until" v hgv
+    rcases hor with ⟨hnone, hd⟩ | ⟨x, y, hlx, hy, hv⟩
+    · rw [(fieldTy_of _ _ _ _ _ hs hf).2, hd] at dUntil
+      have hvn : v = .null := by cases v <;> simp [CVal.isNull] at dUntil ⊢
+      exact ⟨Or.inl hvn, Or.inl ⟨hnone, hvn⟩⟩
+    · obtain ⟨h1, h2⟩ := validity_option fe s f "valid_until" [.null] x y v hs hf tyUntil (Or.inr rfl)
+        after_validators_pinned.2.2.1 hy hv
+      exact ⟨h1, Or.inr ⟨x, hlx, h2⟩⟩
+  exact ⟨fun v hv => (from_ v hv).1, fun v hv => (until_ v hv).1, kvs, ksIn, keyIn, ht, hl, hmem,
+    fun v hv => (from_ v hv).2, fun v hv => (until_ v hv).2⟩
+
+/-- the loaded validity of `keys.<k>.<f>`: (instant µs, UTC offset s) -/
+def validityOf (r : Res CVal) (k f : String) : Option (Int × Option Int) :=
+  match ((r.toOption.bind (·.get? "ksk_keys")).bind (·.get? k)).bind (·.get? f) with
+  | some (.ts us off) => some (us, off)
+  | _ => none
+
+/-- key definitions spelling 2010-07-15T00:00:00 in the five ways a file can: without designator, with
+    `Z` / `+00:00` (offset 0), with `+02:00` (the instant two hours earlier), as a bare date, and as a
+    quoted text without designator -/
+def exValidityConfig : CVal :=
+  let key (vf : CVal) (rest : List (CVal × CVal)) : CVal :=
+    .map ([(.str "description", .str "d"), (.str "label", .str "L"), (.str "algorithm", .str "RSASHA256"),
+           (.str "valid_from", vf)] ++ rest)
+  .map [(.str "keys", .map [
+    (.str "naive", key (.ts 1279152000000000 none) [(.str "valid_until", .ts 1310688000000000 none)]),
+    (.str "zulu", key (.ts 1279152000000000 (some 0)) [(.str "valid_until", .null)]),
+    (.str "plus2", key (.ts 1279144800000000 (some 7200)) [(.str "valid_until", .ts 1310680800000000 (some 7200))]),
+    (.str "bare", key (.date 14805) [(.str "valid_until", .date 15170)]),
+    (.str "text", key (.str "2010-07-15T00:00:00") [])])]
+
+/-- non-vacuity, and the five spellings computed: the configuration loads; no designator, `Z`, the
+    bare date and the text all load as 2010-07-15T00:00:00 UTC (offset 0), `+02:00` keeps its own
+    instant and offset; no loaded validity is naive -/
+example :
+    let r := fromDict (realEnv fun _ => false) exValidityConfig
+    loads r = true ∧
+    validityOf r "naive" "valid_from" = some (1279152000000000, some 0) ∧
+    validityOf r "naive" "valid_until" = some (1310688000000000, some 0) ∧
+    validityOf r "zulu" "valid_from" = some (1279152000000000, some 0) ∧
+    validityOf r "zulu" "valid_until" = none ∧
+    validityOf r "plus2" "valid_from" = some (1279144800000000, some 7200) ∧
+    validityOf r "plus2" "valid_until" = some (1310680800000000, some 7200) ∧
+    validityOf r "bare" "valid_from" = some (1279152000000000, some 0) ∧
+    validityOf r "bare" "valid_until" = some (1310688000000000, some 0) ∧
+    validityOf r "text" "valid_from" = some (1279152000000000, some 0) ∧
+    validityOf r "text" "valid_until" = none := by
+  decide +kernel
 
 /-! ## 4. One flag, one check -/
 
